@@ -77,9 +77,12 @@ def handle (inp out : List String) : String :=
     match parseF s, parseF re, parseF im, out.mapM parseF with
     | some s, some re, some im, some [o0, o1, o2] =>
       let m := psk8Demod F s (re, im)
-      let okModel := close o0 m.1 1e-9 1e-12 && close o1 m.2.1 1e-9 1e-12 && close o2 m.2.2 1e-9 1e-12
+      -- the squared distances |r - s_k|^2 are evaluated with an absolute error of a few ulp of (1 + |r|^2); the LLR is their
+      -- differences times 1/(2 sigma^2): for extreme sigma / |r| that rounding, not a relative 1e-9, is the floor of any comparison
+      let cond : Float := 64 * 1.2e-16 * (1 / (s * s)) * (1 + re * re + im * im)
+      let okModel := close o0 m.1 1e-9 (1e-12 + cond) && close o1 m.2.1 1e-9 (1e-12 + cond) && close o2 m.2.2 1e-9 (1e-12 + cond)
       let w := [posterior8 s re im 0, posterior8 s re im 1, posterior8 s re im 2]
-      let okPost := close o0 (w.getD 0 0) 1e-9 1e-9 && close o1 (w.getD 1 0) 1e-9 1e-9 && close o2 (w.getD 2 0) 1e-9 1e-9
+      let okPost := close o0 (w.getD 0 0) 1e-9 (1e-9 + cond) && close o1 (w.getD 1 0) 1e-9 (1e-9 + cond) && close o2 (w.getD 2 0) 1e-9 (1e-9 + cond)
       let prop := if !okPost then some s!"8psk-llr-is-not-the-posterior-log-ratio want={w} got={[o0, o1, o2]}" else none
       if okModel then verdict out out prop else verdict [hex m.1, hex m.2.1, hex m.2.2] out prop
     | _, _, _, _ => "BADLINE c14 dem8"
